@@ -719,7 +719,9 @@ var rwOps = []string{"+", "-", "*", "/", "%", "==", "!=", "<", "<=", ">", ">=", 
 
 var rwPaths = []string{".a", ".a.b", ".[0]", ".a[1:2]", ".[\"a\"]", "(.a)", "(.a).b", ".a[0].b[1:]", ".[-1]", ".a[.b]", ".[1.5]", ".\"a\"", ".a.\"b\"", ".[1:]", ".[:1]", ".a[0]", ".[0][0]", ".a[\"b\"]", ".[\"abc\"[1:]]", ".[-1[0]?]", ".[0:1][0]", ".a[1:][1:]", "(.a[0])", "((.a).b).c", ".[2]", ".a[5]", ".[\"a\"].b[0]", ".a[null:1]", ".[1:null]"}
 
-var rwRHS = []string{"1", ".", ".b", "(1,2)", "empty", "error(\"x\")", "[.]", "null", ".a", "length?", "\"s\"", "{}", "[1,2]", "(.a, 2)"}
+var rwRHS = []string{"1", ".", ".b", "(1,2)", "empty", "error(\"x\")", "[.]", "null", ".a", "length?", "\"s\"", "{}", "[1,2]", "(.a, 2)",
+	// values navigated from constructed containers (not a part of the path when the assignment sits in path())
+	"({} | .b)", "{}.b", "[1][0]", "([1] | .[0])", "(\"ab\" | .[1:])", "({a: 1} | .a, .b)", "([.] | .[0])", "(. as $d | $d.a)"}
 
 var rwConds = []string{".", ".a", "true", "false", "null", "(true,false)", "empty", "error?", ".[]?", "(1 as $x | $x)", ". == 1", "length? > 1", ".a?", "(.a?, .b?)", "1", "[]", "(null, 1)", "isempty(.[]?)", "not"}
 
@@ -821,7 +823,7 @@ func RewriteBiased(conf Conf) *rapid.Generator[Prog] {
 		n := rapid.IntRange(0, 2).Draw(t, "wraps")
 		for i := 0; i < n; i++ {
 			w := pick(t, "wrap", []string{"[%s]", "(%s) | %a", "%a | (%s)", "((%s)) + (%a)", "(%a) + ((%s))", "(%s), %a", "%a, (%s)", ". as $x | (%s)", "try (%s) catch .", "reduce (%s) as $v (0; . + 1)",
-				"first(%s)", "[limit(3; %s)]", "[path(%s)?]", "{a: (%s)}", "\"i\\(%s)\"", "[(%s) | tojson]", "(%s) as $v | [$v, $v]", "[.[]? | (%s)]", "label $z | (%s)", "(%s)?", "[(%s), (%s)] | length",
+				"first(%s)", "[limit(3; %s)]", "[path(%s)?]", "try path(%s) catch .", "try path(%s) catch .", "{a: (%s)}", "\"i\\(%s)\"", "[(%s) | tojson]", "(%s) as $v | [$v, $v]", "[.[]? | (%s)]", "label $z | (%s)", "(%s)?", "[(%s), (%s)] | length",
 				"[foreach (%s) as $v (0; . + 1; [$v, .])]", "(%s) | (%s)", "if (%s) then 1 else 2 end", "((%s) | 3) + 10", "[%a, (%s) | 0] | add?", "isempty(%s)", "1 as $x | ((2, $x) | (%s)) + 10"})
 			for strings.Contains(w, "%a") {
 				w = strings.Replace(w, "%a", hole(), 1)
